@@ -41,11 +41,14 @@ Proof.
     { rewrite Rba, <- in_rev. apply (TI_prev_fresh fo x s p HT Hfl). now rewrite <- Rp. }
     rewrite rev_app_distr. cbn [rev app].
     destruct md; cbn [minv] in Hm; [| |exact I]; try rewrite Esp in Hm.
-    + assert (E1 : map fst (rec_set (Some p) [(1, a, Some 1)] (s_recipes st)) = s_branch_anchor st ++ [Some p])
-        by (rewrite rec_set_keys_notin; rewrite Hm; [reflexivity|exact Hnotin]).
+    + assert (E1 : map fst (rec_set (Some p) [(1, a, Some 1)] (rec_del (Some p) (s_recipes st))) = s_branch_anchor st ++ [Some p])
+        by (rewrite rec_del_absent by (apply rec_get_notin; rewrite Hm; exact Hnotin);
+            rewrite rec_set_keys_notin; rewrite Hm; [reflexivity|exact Hnotin]).
       rewrite rec_append_keys_in; [exact E1|]. rewrite E1. apply in_or_app. right. now left.
-    + assert (E1 : map fst (rec_set (Some p) [(1, a, Some 1)] (s_recipes st)) = s_branch_anchor st ++ [Some p])
-        by (rewrite rec_set_keys_in; rewrite Hm; [reflexivity|apply in_or_app; right; now left]).
+    + assert (E1 : map fst (rec_set (Some p) [(1, a, Some 1)] (rec_del (Some p) (s_recipes st))) = s_branch_anchor st ++ [Some p])
+        by (destruct (map_fst_snoc _ _ _ Hm) as (l0 & v0 & El0 & Ek0); rewrite El0;
+            rewrite rec_del_app by (apply rec_get_notin; rewrite Ek0; exact Hnotin);
+            rewrite rec_set_keys_notin; rewrite Ek0; [reflexivity|exact Hnotin]).
       rewrite rec_append_keys_in; [exact E1|]. rewrite E1. apply in_or_app. right. now left.
   - injection Eop as <- <- <-. destruct md; cbn [minv] in Hm; try exact I.
     destruct (s_branching st); [|exact Hm].
@@ -139,7 +142,7 @@ Lemma gunit_sim2 fo u cs K : gunit_ok fo u = true -> contz K -> closes_ok cs = t
   forall st x pre pc f ak a0 rc,
   Rel st x -> m_prev x = Some ak -> node_attrs (m_g x) ak = Ok a0 -> parse_graph_base_node fo (u_name u) = Ok a0 ->
   m_pend x = oord (u_bond u) ->
-  rec_set (Some ak) [(1, a0, Some 1)] (s_recipes st) = rc ++ [(Some ak, [(1, a0, Some 1)])] ->
+  rec_set (Some ak) [(1, a0, Some 1)] (rec_del (Some ak) (s_recipes st)) = rc ++ [(Some ak, [(1, a0, Some 1)])] ->
   length rc = length (m_stack x) -> rec_get (Some ak) rc = None -> (length cs <= length (m_stack x))%nat -> Forall skipch pre ->
   match m_run fo (gunit_toks u ++ closes_toks cs) x with
   | Ok x1 => exists st1 pre1,
@@ -153,7 +156,7 @@ Proof.
   pose proof (unit_body_gen fo u ak a0 (m_stack x) rc cs K Ea0 Hna Hbo Hd HK Hcs Haft Hlcs Hlen Habs (u_body u) true st x
                 (pre ++ ["("%char]) pc f [] Hbne HR) as Hbody.
   assert (Hf1 : m_stack x = m_stack x /\ m_prev x = Some ak
-                /\ rec_set (Some ak) [(1, a0, Some 1)] (s_recipes st) = rc ++ [(Some ak, [(1, a0, Some 1)])]
+                /\ rec_set (Some ak) [(1, a0, Some 1)] (rec_del (Some ak) (s_recipes st)) = rc ++ [(Some ak, [(1, a0, Some 1)])]
                 /\ node_attrs (m_g x) ak = Ok a0 /\ (@nil recipe_entry) = []) by (repeat split; assumption).
   specialize (Hbody Hf1). clear Hf1.
   assert (Hp1 : Ascii.eqb (last (pre ++ ["("%char]) pc) "("%char = true) by (now rewrite last_last).
@@ -304,16 +307,16 @@ Proof.
     pose proof HR as (Rg & Rc & Rp & Rcy & Rba & Rbr & Rpb).
     assert (Hnotin : ~ In (Some ak) (s_branch_anchor st)).
     { rewrite Rba, <- in_rev. now apply (TI_prev_fresh fo x s ak HT Hfl). }
-    assert (Hrc : exists rc, rec_set (Some ak) [(1, a0, Some 1)] (s_recipes st) = rc ++ [(Some ak, [(1, a0, Some 1)])]
+    assert (Hrc : exists rc, rec_set (Some ak) [(1, a0, Some 1)] (rec_del (Some ak) (s_recipes st)) = rc ++ [(Some ak, [(1, a0, Some 1)])]
                              /\ length rc = length (m_stack x) /\ rec_get (Some ak) rc = None).
     { destruct md; [| |discriminate]; cbn [minv] in Hm.
       - exists (s_recipes st). split; [|split].
-        + apply rec_set_absent. apply rec_get_notin. now rewrite Hm.
+        + rewrite rec_del_absent by (apply rec_get_notin; now rewrite Hm). apply rec_set_absent. apply rec_get_notin. now rewrite Hm.
         + transitivity (length (map fst (s_recipes st))); [symmetry; apply map_length|]. rewrite Hm, Rba. apply rev_length.
         + apply rec_get_notin. now rewrite Hm.
       - rewrite Rp, Ep in Hm. destruct (map_fst_snoc _ _ _ Hm) as (rc & old & Erc & Ekeys).
         exists rc. split; [|split].
-        + rewrite Erc. apply rec_set_app. apply rec_get_notin. now rewrite Ekeys.
+        + rewrite Erc. rewrite rec_del_app by (apply rec_get_notin; now rewrite Ekeys). apply rec_set_absent. apply rec_get_notin. now rewrite Ekeys.
         + transitivity (length (map fst rc)); [symmetry; apply map_length|]. rewrite Ekeys, Rba. apply rev_length.
         + apply rec_get_notin. now rewrite Ekeys. }
     destruct Hrc as (rc & Hset & Hlen & Habs).
